@@ -200,38 +200,120 @@ func c01(c *h.Ctx) {
 		hsm := c.O.Call("rtmp.hs.read", h.Hex(wires[0].Bytes()))
 		c.Eq("hs.read", "rtmp.hs.read <3073B>", "ok 03 1536 1536 0", hsm)
 
-		// now the chunk streams: endpoint d writes dirs[d] through a real Protocol
-		var protos [2]*rtmp.Protocol
+		// now the chunk streams: endpoint d writes dirs[d] through a real Protocol. Half of the sessions are DUPLEX:
+		// each endpoint is ONE Protocol that writes its own messages and reads the peer's, the two activities
+		// interleaved at random (a read is enabled once the peer has written that message). What an endpoint
+		// announces with Set Chunk Size governs only what it writes, what it receives governs only how it reads, so
+		// each direction must come out exactly as in the simplex sessions. The other half writes everything first and
+		// reads it back with a fresh Protocol.
+		duplex := r.Bool()
+		var protos, readers [2]*rtmp.Protocol
 		var chunkWire [2]bytes.Buffer
-		for d := 0; d < 2; d++ {
-			protos[d] = rtmp.NewProtocol(&h.RW{Reader: nil, Writer: &chunkWire[d]})
+		var wst, rstatus [2]string
+		var got [2][]string
+		var c2ok [2]bool
+		var c2err [2]error
+		if duplex {
+			var srd [2]*h.SegReader
+			for d := 0; d < 2; d++ {
+				c2rd := &h.SegReader{Data: append([]byte(nil), wires[1-d].Bytes()[1537:]...), R: r.Fork(), Mode: mode}
+				c2, e2 := hs[d].ReadC2S2(c2rd)
+				c2ok[d], c2err[d] = e2 == nil && len(c2) == 1536 && c2rd.Pos == len(c2rd.Data), e2
+				srd[d] = &h.SegReader{R: r.Fork(), Mode: mode}
+				protos[d] = rtmp.NewProtocol(&h.RW{Reader: srd[d], Writer: &chunkWire[d]})
+				readers[d] = protos[d]
+				wst[d], rstatus[d] = "ok", "ok"
+			}
+			var wrote [2]int
+			var held [2][]*rtmp.Message
+			for {
+				type act struct {
+					d     int
+					write bool
+				}
+				var acts []act
+				for d := 0; d < 2; d++ {
+					if wst[d] == "ok" && wrote[d] < len(dirs[d]) {
+						acts = append(acts, act{d, true})
+					}
+					if rstatus[d] == "ok" && len(held[d]) < wrote[1-d] {
+						acts = append(acts, act{d, false})
+					}
+				}
+				if len(acts) == 0 {
+					break
+				}
+				a := acts[r.Intn(len(acts))]
+				if a.write {
+					if st := writeSession(protos[a.d], dirs[a.d][wrote[a.d]:wrote[a.d]+1]); st != "ok" {
+						wst[a.d] = fmt.Sprintf("err at %d", wrote[a.d])
+					} else {
+						wrote[a.d]++
+					}
+				} else {
+					srd[a.d].Data = chunkWire[1-a.d].Bytes()
+					rstatus[a.d] = h.Safe(func() string {
+						m, err := protos[a.d].ReadMessage()
+						if err != nil {
+							return errClass(err)
+						}
+						held[a.d] = append(held[a.d], m)
+						return "ok"
+					})
+				}
+			}
+			for d := 0; d < 2; d++ {
+				srd[d].Data = chunkWire[1-d].Bytes()
+				for _, m := range held[d] { // rendered only now: every message was held while the session went on
+					cid, ty, sid, ts, plen := rtmp.VerifMessageFields(m)
+					if int(plen) != len(m.Payload) {
+						rstatus[d] = "bad-length-field"
+						break
+					}
+					got[d] = append(got[d], fmt.Sprintf("%d.%d.%d.%d.%s", cid, ty, sid, ts, h.Hex(m.Payload)))
+				}
+			}
+		} else {
+			for d := 0; d < 2; d++ {
+				protos[d] = rtmp.NewProtocol(&h.RW{Reader: nil, Writer: &chunkWire[d]})
+				wst[d] = writeSession(protos[d], dirs[d])
+			}
+			// endpoint d reads what 1-d wrote: C2 first (rest of the handshake), then messages, segmented transport
+			for d := 0; d < 2; d++ {
+				peer := 1 - d
+				rest := append(append([]byte(nil), wires[peer].Bytes()[1537:]...), chunkWire[peer].Bytes()...)
+				rd := &h.SegReader{Data: rest, R: r.Fork(), Mode: mode}
+				c2, e2 := hs[d].ReadC2S2(rd)
+				c2ok[d], c2err[d] = e2 == nil && len(c2) == 1536, e2
+				readers[d] = rtmp.NewProtocol(&h.RW{Reader: rd, Writer: &bytes.Buffer{}})
+				got[d], rstatus[d] = readSession(readers[d], len(dirs[peer]))
+			}
 		}
 		for d := 0; d < 2; d++ {
 			in := fmt.Sprintf("rtmp.write 128 %s", rmsgsStr(dirs[d]))
-			st := writeSession(protos[d], dirs[d])
-			c.Hold(st == "ok", "write.ok", h.Trunc(in, 600), st, "ok")
+			if duplex {
+				in += " (duplex endpoint)"
+			}
+			c.Hold(wst[d] == "ok", "write.ok", h.Trunc(in, 600), wst[d], "ok")
 			c.Eq("write", h.Trunc(in, 600), "ok "+h.Hex(chunkWire[d].Bytes()), c.O.Call("rtmp.write", "128", rmsgsStr(dirs[d])))
 			_, out := rtmp.VerifChunkSizes(protos[d])
 			c.Eq("write.outchunk", h.Trunc(in, 600), fmt.Sprint(out), c.O.Call("rtmp.outchunk", "128", rmsgsStr(dirs[d])))
 		}
-		// endpoint d reads what 1-d wrote: C2 first (rest of the handshake), then messages, segmented transport
 		for d := 0; d < 2; d++ {
 			peer := 1 - d
-			rest := append(append([]byte(nil), wires[peer].Bytes()[1537:]...), chunkWire[peer].Bytes()...)
-			rd := &h.SegReader{Data: rest, R: r.Fork(), Mode: mode}
-			c2, e2 := hs[d].ReadC2S2(rd)
-			c.Hold(e2 == nil && len(c2) == 1536, "handshake.c2", fmt.Sprintf("session %d", s), fmt.Sprint(e2), "1536B")
-			// a fresh Protocol for reading (same object would do: reader and writer state are independent)
-			pr := rtmp.NewProtocol(&h.RW{Reader: rd, Writer: &bytes.Buffer{}})
-			got, status := readSession(pr, len(dirs[peer]))
+			c.Hold(c2ok[d], "handshake.c2", fmt.Sprintf("session %d", s), fmt.Sprint(c2err[d]), "1536B")
+			pr := readers[d]
 			in := fmt.Sprintf("session: write 128 %s ; read back (segmentation mode %d)", rmsgsStr(dirs[peer]), mode)
+			if duplex {
+				in = fmt.Sprintf("duplex session: the reading endpoint itself writes 128 %s ; peer writes 128 %s ; read back (segmentation mode %d)", h.Trunc(rmsgsStr(dirs[d]), 300), rmsgsStr(dirs[peer]), mode)
+			}
 			want := make([]string, len(dirs[peer]))
 			for i, m := range dirs[peer] {
 				want[i] = fmt.Sprintf("%d.%d.%d.%d.%s", m.cid, m.ty, m.sid, m.ts, h.Hex(m.payload))
 			}
 			// property: exactly the written sequence, identical type/stream id/timestamp/payload
-			c.Hold(status == "ok" && strings.Join(got, ",") == strings.Join(want, ","), "session.roundtrip", h.Trunc(in, 800),
-				h.Trunc(status+" "+strings.Join(got, ","), 300), h.Trunc("ok "+strings.Join(want, ","), 300))
+			c.Hold(rstatus[d] == "ok" && strings.Join(got[d], ",") == strings.Join(want, ","), "session.roundtrip", h.Trunc(in, 800),
+				h.Trunc(rstatus[d]+" "+strings.Join(got[d], ","), 300), h.Trunc("ok "+strings.Join(want, ","), 300))
 			// nothing left unread, and a further read hits clean EOF
 			_, st2 := readSession(pr, 1)
 			c.Hold(st2 == "err-eof", "session.clean_eof", h.Trunc(in, 800), st2, "err-eof")
@@ -239,10 +321,10 @@ func c01(c *h.Ctx) {
 			inC, _ := rtmp.VerifChunkSizes(pr)
 			mrep := c.O.Call("rtmp.read", "128", fmt.Sprint(len(dirs[peer])), h.Hex(chunkWire[peer].Bytes()))
 			gotS := "_"
-			if len(got) > 0 {
-				gotS = strings.Join(got, ",")
+			if len(got[d]) > 0 {
+				gotS = strings.Join(got[d], ",")
 			}
-			c.Eq("read", h.Trunc(in, 800), fmt.Sprintf("%s %s %d 0", gotS, status, inC), mrep)
+			c.Eq("read", h.Trunc(in, 800), fmt.Sprintf("%s %s %d 0", gotS, rstatus[d], inC), mrep)
 		}
 		nset := 0
 		maxLen := 0
@@ -254,7 +336,7 @@ func c01(c *h.Ctx) {
 				maxLen = len(m.payload)
 			}
 		}
-		c.Case(fmt.Sprintf("session/seg=%d,setchunk=%s,maxlen=%s", mode, cls(nset), lenClass(maxLen)), rmsgsStr(dirs[0])+"|"+rmsgsStr(dirs[1]), true)
+		c.Case(fmt.Sprintf("session/duplex=%v,seg=%d,setchunk=%s,maxlen=%s", duplex, mode, cls(nset), lenClass(maxLen)), rmsgsStr(dirs[0])+"|"+rmsgsStr(dirs[1]), true)
 	}
 
 	// fixed regression inputs of repaired defects (F17, F3)
